@@ -87,6 +87,20 @@ CHECKS = {
              "compute_shapley_value and compute_shapley_value_for_player are run on all unit games (n<=7/10) and random integer, dyadic, negative, null-player, relabelled and "
              "combined games, and their results (certified integer intervals of n!*scale*value) must contain the specification's ordering average; both entry points must agree bit for bit.",
         note="linearity argument instead of a symbolic proof; orderings enumerated up to n=6 on recorded results, weighted form beyond"),
+    "C10": dict(
+        level="exploration", design="§5 C10", technique="registry swept by a driver; TLC evaluates the TLA+ contract table, class predicates and determinism clauses on every recorded call (Trace_Generators); determinism state machine model-checked",
+        text="Every key of the generator registry except 'convex' is invoked for n=3..6 (quick) / 3..8 (thorough) with 3 / 40 seeds, twice per seed with identically seeded "
+             "numpy Generators; TLC checks on each recorded pair: no exception, requested player count, v(empty)=0, float64, superadditive, additionally monotone "
+             "non-increasing for the XOS/XS/OXS/K-budget/coverage families (contract table in Generators.tla), bit-identical repeat unless the family is a documented "
+             "exception, and owner rotation for the round-robin factory.",
+        note="seeds are sampled, not exhausted; the specification contributes the oracle, not exhaustiveness"),
+    "C15": dict(
+        level="model_checking", design="§5 C15", technique="TLC on MC_Normalize (theorems on all lattice / graph games, code loop = definition) + trace validation of normalize/denormalize on exact games and every generator family (Trace_Normalize)",
+        text="TLC checks on every superadditive lattice game (n=3,4) and every graph game with small weights that the code's subtraction loop computes the definitional "
+             "zero-normalisation, singletons are 0, values lie in [0, surplus], additive games give the zero game, superadditivity is preserved and de-normalisation is the inverse; "
+             "the real normalize_game/denormalize_game are run on exact integer/dyadic/additive/negative/graph games (outputs bound by certified integer intervals of out*surplus) "
+             "and on every registered generator family in both representations (2^-20 grid, tolerance growing with the condition number), including nearly-additive float games.",
+        note="tolerance is trivial beyond condition number 2^26; a surplus within 2n*2^-52*scale of zero must give the zero game"),
 }
 
 NOT_YET = "check not built yet (build in progress; see DESIGN.md §5 for the plan)"
